@@ -164,26 +164,62 @@ fn sorted(mut v: Vec<MetaObs>) -> Vec<MetaObs> {
     v
 }
 
+/// The concrete request of a symbolic get: tokens and dates resolved from the
+/// store's own `book`.
+pub fn get_options(book: &Book, g: &GetSpec) -> GetOptions {
+    let lm = own_lm(book, g.key);
+    GetOptions {
+        if_match: g.im.map(|t| ctok(book, g.key, t)),
+        if_none_match: g.inm.map(|t| ctok(book, g.key, t)),
+        if_modified_since: g.ims.map(|d| lm + Duration::milliseconds(d)),
+        if_unmodified_since: g.ius.map(|d| lm + Duration::milliseconds(d)),
+        range: g.range.map(|r| match r {
+            Rng::B(a, b) => GetRange::Bounded(a..b),
+            Rng::O(o) => GetRange::Offset(o),
+            Rng::S(s) => GetRange::Suffix(s),
+        }),
+        version: None,
+        head: g.head,
+        extensions: Default::default(),
+    }
+}
+
+/// What the request `g` is answered when it is decided on the commit `c`
+/// alone, before any payload is fetched: the verdict of `object_store`'s own
+/// `GetOptions::check_preconditions` on that commit's (token, timestamp),
+/// then the validity of the requested range for that commit's size. `None` =
+/// nothing to refuse, the payload would be fetched.
+///
+/// Used for a reader whose metadata cache still holds an older commit: it may
+/// refuse a request on the strength of that commit (cache lag, by design);
+/// once it goes for the payload it finds the generation gone and must answer
+/// from the current commit.
+pub fn decided_on_commit(book: &Book, g: &GetSpec, c: &crate::ops::Commit) -> Option<Class> {
+    let opts = get_options(book, g);
+    let meta = ObjectMeta {
+        location: key(g.key),
+        last_modified: c.lm,
+        size: c.size,
+        e_tag: c.token.clone(),
+        version: None,
+    };
+    if let Err(e) = opts.check_preconditions(&meta) {
+        return Some(class_of(&e));
+    }
+    if let Some(r) = &opts.range
+        && r.as_range(c.size).is_err()
+    {
+        return Some(Class::Other);
+    }
+    None
+}
+
 /// Executes one read on `store`, resolving symbolic tokens and dates from
 /// that store's own `book`.
 pub async fn exec(store: &dyn ObjectStore, book: &Book, rd: &Rd) -> Obs {
     match rd {
         Rd::Get(g) => {
-            let lm = own_lm(book, g.key);
-            let opts = GetOptions {
-                if_match: g.im.map(|t| ctok(book, g.key, t)),
-                if_none_match: g.inm.map(|t| ctok(book, g.key, t)),
-                if_modified_since: g.ims.map(|d| lm + Duration::milliseconds(d)),
-                if_unmodified_since: g.ius.map(|d| lm + Duration::milliseconds(d)),
-                range: g.range.map(|r| match r {
-                    Rng::B(a, b) => GetRange::Bounded(a..b),
-                    Rng::O(o) => GetRange::Offset(o),
-                    Rng::S(s) => GetRange::Suffix(s),
-                }),
-                version: None,
-                head: g.head,
-                extensions: Default::default(),
-            };
+            let opts = get_options(book, g);
             match store.get_opts(&key(g.key), opts).await {
                 Err(e) => Obs::err(&e),
                 Ok(res) => {
